@@ -310,6 +310,15 @@ type reader struct {
 	multi func(bool)
 }
 
+// OpenReader builds a Reader of the package on src (exported for the pipe driver).
+func OpenReader(pkg string, fast bool, src io.Reader, dict []byte) (io.Reader, func(bool), error) {
+	r, err := openReader(pkg, fast, src, dict)
+	if err != nil {
+		return nil, nil, err
+	}
+	return r.rd, r.multi, nil
+}
+
 func openReader(pkg string, fast bool, src io.Reader, dict []byte) (*reader, error) {
 	switch pkg {
 	case "flate":
@@ -384,6 +393,7 @@ const defaultMaxOut = 96 << 20
 func drain(rd io.Reader, sizes []int, take int, maxOut int, rec *RRec) (out []byte, err error) {
 	si := 0
 	zero := 0
+	var scratch []byte
 	for {
 		sz := 65536
 		if len(sizes) > 0 {
@@ -399,8 +409,11 @@ func drain(rd io.Reader, sizes []int, take int, maxOut int, rec *RRec) (out []by
 				return out, nil
 			}
 		}
-		buf := make([]byte, sz+8)
-		for i := range buf {
+		if cap(scratch) < sz+8 {
+			scratch = make([]byte, sz+8)
+		}
+		buf := scratch[:sz+8]
+		for i := sz; i < sz+8; i++ {
 			buf[i] = 0xEE
 		}
 		n, e := rd.Read(buf[:sz])
